@@ -164,7 +164,6 @@ Definition seq (st st' : gstate) : Prop :=
 Section Indep.
   Variable add_from : node -> node -> list triple -> list triple.
   Variable Good : list triple -> Prop.
-  Hypothesis G_teq : forall g g', teq g g' -> Good g -> Good g'.
   Hypothesis G_add : forall a b g, Good g -> Good (add_from a b g).
   Hypothesis G_cons : forall s p o g, p <> p_from -> p <> p_depends -> Good g -> Good ((s, p, o) :: g).
   Hypothesis af_compat : forall a b g g', Good g -> teq g g' -> teq (add_from a b g) (add_from a b g').
@@ -256,29 +255,29 @@ Section Indep.
       split; [|intros ? ? ? E; discriminate E].
       intros cur st st' Hq Hg. cbn [add_expr_s]. destruct Hq as (Hm & Hn & Ht). rewrite <- Hm.
       destruct (memo_find (key_of (ESrc i)) (g_memo st)).
-      + cbn. repeat split; auto.
+      + cbn. split; [reflexivity|]. split; [unfold seq; auto | assumption].
       + destruct (pick_eq cur st st' (conj Hm (conj Hn Ht)) Hg) as (E & (Hm2 & Hn2 & Ht2) & Hg2).
         destruct (match cur with Some c => (c, st) | None => fresh st end) as [c s0].
         destruct (match cur with Some c => (c, st') | None => fresh st' end) as [c' s0'].
         cbn [fst snd] in *. subst c'. cbn. unfold set_memo, seq. cbn [g_memo g_next g_tr].
-        rewrite Hm2. auto.
+        rewrite Hm2. split; [reflexivity|]. split; [|assumption]. split; [reflexivity|]. split; assumption.
     - (* EVar *)
       split; [|intros ? ? ? E; discriminate E].
       intros cur st st' Hq Hg. cbn [add_expr_s]. destruct Hq as (Hm & Hn & Ht). rewrite <- Hm.
       destruct (memo_find (key_of (EVar v)) (g_memo st)).
-      + cbn. repeat split; auto.
+      + cbn. split; [reflexivity|]. split; [unfold seq; auto | assumption].
       + destruct (match cur with Some c => (c, st) | None => fresh st end).
         destruct (match cur with Some c => (c, st') | None => fresh st' end). exact I.
     - (* EOp *)
       split; [|intros ? ? ? E; discriminate E].
       intros cur st st' Hq Hg. cbn [add_expr_s]. destruct Hq as (Hm & Hn & Ht). rewrite <- Hm.
       destruct (memo_find (key_of (EOp i o)) (g_memo st)).
-      + cbn. repeat split; auto.
+      + cbn. split; [reflexivity|]. split; [unfold seq; auto | assumption].
       + destruct (pick_eq cur st st' (conj Hm (conj Hn Ht)) Hg) as (E & (Hm2 & Hn2 & Ht2) & Hg2).
         destruct (match cur with Some c => (c, st) | None => fresh st end) as [c s0].
         destruct (match cur with Some c => (c, st') | None => fresh st' end) as [c' s0'].
         cbn [fst snd] in *. subst c'. cbn. unfold add_tr, seq. cbn [g_memo g_next g_tr].
-        repeat split; auto.
+        split; [reflexivity|]. split; [split; [assumption|]; split; [assumption|]|].
         * intros t. cbn [In]. rewrite (Ht2 t). tauto.
         * apply G_cons; [discriminate | discriminate | exact Hg2].
     - (* EApp *)
@@ -286,7 +285,7 @@ Section Indep.
       destruct IHf as [IHf _]. destruct IHx as [IHx IHb].
       intros cur st st' Hq Hg. cbn [add_expr_s]. destruct Hq as (Hm & Hn & Ht). rewrite <- Hm.
       destruct (memo_find (key_of (EApp i f x fn)) (g_memo st)).
-      { cbn. repeat split; auto. }
+      { cbn. split; [reflexivity|]. split; [unfold seq; auto | assumption]. }
       destruct (pick_eq cur st st' (conj Hm (conj Hn Ht)) Hg) as (E & Hq0 & Hg0).
       destruct (match cur with Some c => (c, st) | None => fresh st end) as [c s0].
       destruct (match cur with Some c => (c, st') | None => fresh st' end) as [c' s0'].
@@ -301,23 +300,23 @@ Section Indep.
                 res_eq (Some (c, upd_tr (wire_s add_from ob fnode xn ci) s7))
                        (Some (c, upd_tr (wire_s add_from ob' fnode xn ci) s7'))).
       { intros xn ci s7 s7' (Hm7 & Hn7 & Ht7) Hg7. cbn. unfold upd_tr, seq. cbn [g_memo g_next g_tr].
-        repeat split; auto.
+        split; [reflexivity|]. split; [split; [assumption|]; split; [assumption|]|].
         - apply wire_s_indep; assumption.
         - apply wire_s_good; assumption. }
       destruct Hq1 as (Hm1 & Hn1 & Ht1).
       unfold fresh. cbn beta iota. rewrite <- Hn1.
       (* the state in which the argument is translated, after drawing blank nodes and
          recording (f, internal, iN) / binding the parameters *)
-      assert (Arg : forall y ci (k k' : gstate -> gstate) s s',
+      assert (Arg : forall y ci (k k' : node -> gstate -> gstate) s s',
                 Stmt y -> seq s s' -> Good (g_tr s) ->
-                (forall xn t t', seq t t' -> Good (g_tr t) -> seq (k t) (k' t') /\ Good (g_tr (k t))) ->
+                (forall (xn : node) t t', seq t t' -> Good (g_tr t) -> seq (k xn t) (k' xn t') /\ Good (g_tr (k xn t))) ->
                 res_eq
                   match match add_expr_s add_from ob y (Some (g_next s)) (AddExpr.mkG (g_tr s) (g_memo s) (S (g_next s))) with
-                        | Some (xn, t) => Some (xn, ci, k t) | None => None end with
+                        | Some (xn, t) => Some (xn, ci, k xn t) | None => None end with
                   | Some (xn, ci, s7) => Some (c, upd_tr (wire_s add_from ob fnode xn ci) s7)
                   | None => None end
                   match match add_expr_s add_from ob' y (Some (g_next s')) (AddExpr.mkG (g_tr s') (g_memo s') (S (g_next s'))) with
-                        | Some (xn, t) => Some (xn, ci, k' t) | None => None end with
+                        | Some (xn, t) => Some (xn, ci, k' xn t) | None => None end with
                   | Some (xn, ci, s7) => Some (c, upd_tr (wire_s add_from ob' fnode xn ci) s7)
                   | None => None end).
       { intros y ci k k' s s' Hy (Hms & Hns & Hts) Hgs Hk. rewrite <- Hns.
@@ -338,21 +337,150 @@ Section Indep.
         set (s3' := add_tr (fnode, p_internal, g_next st1)
                       (AddExpr.mkG (g_tr st1') (g_memo st1') (S (g_next st1)))).
         assert (Hq3 : seq s3 s3').
-        { unfold s3, s3', add_tr, seq. cbn [g_memo g_next g_tr]. repeat split; auto.
+        { unfold s3, s3', add_tr, seq. cbn [g_memo g_next g_tr]. split; [assumption|]. split; [reflexivity|].
           intros t. cbn [In]. rewrite (Ht1 t). tauto. }
         assert (Hg3 : Good (g_tr s3)).
         { unfold s3, add_tr. cbn [g_tr]. apply G_cons; [discriminate | discriminate | exact Hg1]. }
         destruct x as [? | ? | ? ? | ? ? ? ? | j ps b];
-          try (apply (Arg _ (Some (g_next st1)) (upd_tr (add_from _ (g_next st1)))
-                        (upd_tr (add_from _ (g_next st1))) s3 s3' IHx Hq3 Hg3);
-               fail).
-        all: admit.
-      + admit.
+          try (apply (Arg _ (Some (g_next st1)) (fun xn => upd_tr (add_from xn (g_next st1)))
+                        (fun xn => upd_tr (add_from xn (g_next st1))) s3 s3' IHx Hq3 Hg3);
+               intros xn t t' (Hmt & Hnt & Htt) Hgt; unfold upd_tr, seq; cbn [g_memo g_next g_tr];
+               split; [split; [assumption|]; split; [assumption|]; apply af_compat; assumption
+                      | apply G_add; assumption]).
+        (* an abstraction is passed: its parameters stand for iN, the body is translated *)
+        set (s4 := bind_params ps (g_next st1) s3). set (s4' := bind_params ps (g_next st1) s3').
+        assert (Hq4 : seq s4 s4').
+        { destruct Hq3 as (Hm3 & Hn3 & Ht3). unfold s4, s4', bind_params, seq. cbn [g_memo g_next g_tr].
+          rewrite Hm3. auto. }
+        assert (Hg4 : Good (g_tr s4)) by exact Hg3.
+        apply (Arg b (Some (g_next st1)) (fun _ t => t) (fun _ t => t) s4 s4' (IHb j ps b eq_refl) Hq4 Hg4).
+        intros xn t t' Hqt Hgt. auto.
+      + (* data is passed *)
+        apply (Arg x None (fun _ t => t) (fun _ t => t) st1
+                 (AddExpr.mkG (g_tr st1') (g_memo st1') (g_next st1)) IHx).
+        * unfold seq. cbn [g_memo g_next g_tr]. auto.
+        * exact Hg1.
+        * intros xn t t' Hqt Hgt. auto.
     - split; [|intros j' ps' b' E; injection E as _ _ <-; apply IHb].
       intros cur st st' Hq Hg. cbn [add_expr_s]. destruct Hq as (Hm & Hn & Ht). rewrite <- Hm.
       destruct (memo_find (key_of (EAbs j ps b)) (g_memo st)).
-      + cbn. repeat split; auto.
+      + cbn. split; [reflexivity|]. split; [unfold seq; auto | assumption].
       + destruct (match cur with Some c => (c, st) | None => fresh st end).
         destruct (match cur with Some c => (c, st') | None => fresh st' end). exact I.
-  Admitted.
+  Qed.
+
+  Theorem add_expr_s_indep e cur st st' : seq st st' -> Good (g_tr st) ->
+    res_eq (add_expr_s add_from ob e cur st) (add_expr_s add_from ob' e cur st').
+  Proof. apply add_expr_s_rec. Qed.
 End Indep.
+
+(* the observable outcome of two runs: both fail, or both return the same node,
+   the same memo and blank-node counter, and the same SET of triples *)
+Definition same_outcome (r r' : option (node * gstate)) : Prop :=
+  match r, r' with
+  | Some (n, s), Some (n', s') =>
+      n = n' /\ g_memo s = g_memo s' /\ g_next s = g_next s' /\ seteq (g_tr s) (g_tr s')
+  | None, None => True
+  | _, _ => False
+  end.
+
+Lemma res_eq_same Good r r' : res_eq Good r r' -> same_outcome r r'.
+Proof.
+  unfold res_eq, same_outcome. destruct r as [[n s]|], r' as [[n' s']|]; auto.
+  intros (E & (Hm & Hn & Ht) & _). auto.
+Qed.
+
+(* with_dependencies on: add_from maintains tf:depends (Det/AddFromTr.v) *)
+Theorem add_expr_dep_any_schedule ob ob' : sched_ok ob -> sched_ok ob' ->
+  forall e cur st st', seq st st' -> good (g_tr st) ->
+    same_outcome (add_expr_s (add_from_tr false) ob e cur st)
+                 (add_expr_s (add_from_tr false) ob' e cur st')
+    /\ (forall n s, add_expr_s (add_from_tr false) ob e cur st = Some (n, s) -> good (g_tr s)).
+Proof.
+  intros H1 H2 e cur st st' Hq Hg.
+  pose proof (add_expr_s_indep (add_from_tr false) good
+                (fun a b g => good_add_from_tr false a b g) good_cons
+                (fun a b g g' => aft_compat false false a b g g')
+                (fun a b c d g => aft_comm false false false false a b c d g)
+                (fun a b g => aft_idem false false false a b g)
+                ob ob' H1 H2 e cur st st' Hq Hg) as R.
+  split; [eapply res_eq_same; exact R|].
+  intros n s E. rewrite E in R. unfold res_eq in R.
+  destruct (add_expr_s (add_from_tr false) ob' e cur st') as [[n' s']|]; [|contradiction]. apply R.
+Qed.
+
+(* one wiring loop `for x in self.objects(..): self.add_from(.., ..)`: folding add_from
+   over any permutation of the visited pairs gives the same store *)
+Theorem wiring_loop_any_order ps ps' g : good g -> Permutation ps ps' ->
+  teq (add_from_all (add_from_tr false) ps g) (add_from_all (add_from_tr false) ps' g)
+  /\ good (add_from_all (add_from_tr false) ps g).
+Proof.
+  intros Hg Pm. split.
+  - apply (afa_seteq (add_from_tr false) good).
+    + intros a b h. apply good_add_from_tr.
+    + intros a b h h'. apply aft_compat.
+    + intros a b c d h. apply aft_comm.
+    + intros a b h. apply aft_idem.
+    + exact Hg.
+    + apply seteq_refl.
+    + apply perm_seteq, Pm.
+  - apply (afa_good (add_from_tr false) good); [intros a b h; apply good_add_from_tr | exact Hg].
+Qed.
+
+(* with_dependencies off: add_from adds the from-triple only *)
+Theorem add_expr_plain_any_schedule ob ob' : sched_ok ob -> sched_ok ob' ->
+  forall e cur st st', seq st st' ->
+    same_outcome (add_expr_s add_from_plain ob e cur st) (add_expr_s add_from_plain ob' e cur st').
+Proof.
+  intros H1 H2 e cur st st' Hq.
+  apply (res_eq_same (fun _ => True)).
+  apply (add_expr_s_indep add_from_plain (fun _ => True)); auto.
+  - intros a b g g' _ H t. unfold add_from_plain. cbn [In]. rewrite (H t). tauto.
+  - intros a b c d g _ t. unfold add_from_plain. cbn [In]. tauto.
+  - intros a b g _ t. unfold add_from_plain. cbn [In]. tauto.
+Qed.
+
+(* several expressions into one graph (what add_workflow does, and what a user
+   does who adds expression after expression): each under its own schedule *)
+Fixpoint add_exprs_s (add_from : node -> node -> list triple -> list triple)
+    (es : list (expr * sched)) (st : gstate) : option (list node * gstate) :=
+  match es with
+  | [] => Some ([], st)
+  | (e, ob) :: r =>
+      match add_expr_s add_from ob e None st with
+      | None => None
+      | Some (n, st1) =>
+          match add_exprs_s add_from r st1 with
+          | None => None
+          | Some (ns, st2) => Some (n :: ns, st2)
+          end
+      end
+  end.
+
+Theorem add_exprs_dep_any_schedule es es' :
+  map fst es = map fst es' ->
+  Forall (fun p => sched_ok (snd p)) es -> Forall (fun p => sched_ok (snd p)) es' ->
+  forall st st', seq st st' -> good (g_tr st) ->
+  match add_exprs_s (add_from_tr false) es st, add_exprs_s (add_from_tr false) es' st' with
+  | Some (ns, s), Some (ns', s') =>
+      ns = ns' /\ g_memo s = g_memo s' /\ g_next s = g_next s' /\ seteq (g_tr s) (g_tr s')
+  | None, None => True
+  | _, _ => False
+  end.
+Proof.
+  revert es'. induction es as [|[e ob] es IH]; intros [|[e' ob'] es'] E F F' st st' Hq Hg;
+    try discriminate E.
+  - cbn. destruct Hq as (Hm & Hn & Ht). auto.
+  - cbn [map fst] in E. injection E as <- E. cbn [add_exprs_s].
+    inversion F as [|? ? Fo Fr]; subst. inversion F' as [|? ? Fo' Fr']; subst. cbn [snd] in Fo, Fo'.
+    destruct (add_expr_dep_any_schedule ob ob' Fo Fo' e None st st' Hq Hg) as [R Hg'].
+    unfold same_outcome in R.
+    destruct (add_expr_s (add_from_tr false) ob e None st) as [[n s1]|];
+      destruct (add_expr_s (add_from_tr false) ob' e None st') as [[n' s1']|]; try contradiction; [|exact I].
+    destruct R as (<- & Hm & Hn & Ht).
+    specialize (IH es' E Fr Fr' s1 s1' (conj Hm (conj Hn Ht)) (Hg' n s1 eq_refl)).
+    destruct (add_exprs_s (add_from_tr false) es s1) as [[ns s2]|];
+      destruct (add_exprs_s (add_from_tr false) es' s1') as [[ns' s2']|]; try contradiction; [|exact I].
+    destruct IH as (-> & IH). auto.
+Qed.
+
